@@ -123,6 +123,50 @@ Theorem c09_published : forall c l (p : list hstep) kd k ck,
   In k (ca_ders s) /\ In k (pubkeys s).
 Proof. exact published. Qed.
 
+(* Publication is STABLE over time and under any other writer of the published-key list.  The model of
+   c09_once / c09_no_half_init is opened to events `EWrite f`: some other goroutine runs one critical
+   section `Lock; KeymasterPublicKeys = f state; Unlock`.  For ANY pool of injections and requests, ANY
+   such writers that keep a loaded signer's listed key listed (appending does; so does re-reading a file
+   with the local signers' keys taken in the SAME critical section), ANY interleaving, from a sealed state:
+   whenever the mutex is free and the server is unsealed, and at every moment for every request that saw
+   the signer under its locked test, the key material is complete and whatever any handler signs — session
+   cookie, SSH / X.509 certificate, token, with the main or the Ed25519 key — is signed with a key that is
+   in the published CA list and in the published key list (ssh CA / JWKS / cookie verification).  (evs is
+   universally quantified: this is every reachable state after the unsealing, not only the next one.) *)
+Theorem c09_published_stable : forall c s (jobs : list job) (evs : list ev),
+  signer s = None -> ed s = None -> ready_sent s = 0%nat ->
+  (forall f, In (EWrite f) evs ->
+     forall s' k, (signer s' = Some k \/ ed s' = Some k) -> mem k (pubkeys s') = true -> mem k (f s') = true) ->
+  let w := run2 c (init_world s jobs) evs in
+  (lock w = None -> signer (st w) <> None ->
+     completeb c (st w) = true /\
+     forall p kd k ck, In (kd, k, ck) (snd (run_handler (st w) p [])) -> In k (ca_ders (st w)) /\ In k (pubkeys (st w))) /\
+  (forall j t k0, nth_error (threads w) j = Some t -> saw t = Some k0 ->
+     signer (st w) = Some k0 /\ completeb c (st w) = true /\
+     forall p kd k ck, In (kd, k, ck) (snd (run_handler (st w) p [])) -> In k (ca_ders (st w)) /\ In k (pubkeys (st w))).
+Proof. exact published_stable. Qed.
+
+(* the hypothesis on writers is met by the two writers of the model: an append, and an atomic reload *)
+Theorem c09_writers_keep : forall k file s' k',
+  (signer s' = Some k' \/ ed s' = Some k') -> mem k' (pubkeys s') = true ->
+  mem k' (w_append k s') = true /\ mem k' (w_reload file s') = true.
+Proof. intros k file s' k' A B. split; [apply w_append_keeps|apply w_reload_keeps]; assumption. Qed.
+
+(* NOT the code, the variant the theorem excludes: a reloader that takes the local signers' keys in one
+   critical section and REPLACES the list in a later one (step3: ESnap ... EReplace).  Snapshot while sealed,
+   the injection runs to its end (14 steps), the stale list is installed: the server is unsealed and ready,
+   the mutex is free, it signs cookies with key 1 and certificates with key 2, and neither is published.
+   With the reload in one critical section (a writer that meets the hypothesis) both stay published. *)
+Theorem c09_stale_replace_refuted :
+  let x := run3 stale_cfg {| w3 := init_world (sealed_init stale_cfg) [JInject [112]]; snap := None |} stale_evs in
+  let s := st (w3 x) in
+  lock (w3 x) = None /\ signer s = Some 1 /\ ready_sent s = 1%nat /\ readyz s = 200 /\
+  pubkeys s = [9] /\ mem 1 (pubkeys s) = false /\ mem 2 (pubkeys s) = false /\
+  run_handler s [HGuard; HSign 3 true false; HSign 2 false true] [] = (Done, [(3, 1, true); (2, 2, false)]) /\
+  pubkeys (st (run2 stale_cfg (init_world (sealed_init stale_cfg) [JInject [112]])
+                     (repeat (EThread 0%nat) 14 ++ [EWrite (w_reload [9])]))) = [2; 1; 9].
+Proof. exact stale_replace_refuted. Qed.
+
 (* ------------------------------------------------------------------ non-vacuity *)
 Definition ex_cfg : cfg :=
   {| right_pass := [112; 119]; main_key := 1; main_res := FGood; role_ok := true;
@@ -155,6 +199,18 @@ Example c09_sealed_example :
   run_handler (sealed_init ex_cfg) [HPlain 200; HSign 3 true false] [] = (Crashed, []) /\
   run_handler (sealed_init ex_cfg) [HGuard; HSign 1 false false] [] = (Failed, []).
 Proof. vm_compute. split; reflexivity. Qed.
+
+(* an injection, two requests and two other writers (an append of a foreign key, an atomic reload of the
+   peer-key file) interleaved: unsealed once, both signing keys published at the end, every observation of
+   the requests complete *)
+Example c09_stable_example :
+  let jobs := [JInject [112; 119]; JRequest 2; JRequest 3] in
+  let evs := concat (repeat [EThread 0%nat; EThread 1%nat; EWrite (w_append 7); EThread 2%nat; EWrite (w_reload [9; 8])] 40) in
+  let w := run2 ex_cfg (init_world (sealed_init ex_cfg) jobs) evs in
+  transitions w = 1%nat /\ lock w = None /\ completeb ex_cfg (st w) = true /\
+  mem 1 (pubkeys (st w)) = true /\ mem 2 (pubkeys (st w)) = true /\ mem 7 (pubkeys (st w)) = false /\
+  map (fun t => length (prog t)) (threads w) = [0; 0; 0]%nat.
+Proof. vm_compute. repeat split; reflexivity. Qed.
 
 (* two right injections, one wrong one and two requests under a round-robin schedule: one transition,
    one ready message, the lock is free again, every observation of the requests is complete *)
